@@ -100,10 +100,17 @@ Definition exp_key (e : exp) : str :=
 Definition last_token (s : str) : str :=
   match last_index_byte 32%N s with Some i => skipn (i + 1) s | None => s end.
 
+(* the message of a custom clause without its explanation label (messages may contain blanks) *)
+Definition marker_of (k : str) : str :=
+  let m := skipn 2 k in
+  if has_prefix m (ExplainEn ++ [32%N]) then skipn (length ExplainEn + 1) m
+  else if has_prefix m (ExplainZh ++ [32%N]) then skipn (length ExplainZh + 1) m
+  else last_token m.
+
 Definition exp_of_canon (s : str) : exp :=
   match split s [US] with
   | [p; e; k] =>
-    if has_prefix k (s2b "C:") then XC p (last_token k)
+    if has_prefix k (s2b "C:") then XC p (marker_of k)
     else if str_eqb k (s2b "D") then XD p
     else if has_prefix k (s2b "G:") then XG (skipn 2 k)
     else XF p k
